@@ -414,12 +414,44 @@ Definition slegal (st : shell) (bound : Z) (e : sevent) : bool :=
   | SReport t r _ => match lookup t (sh_pending st) with Some (_, sl) => r <=? s_level sl | None => true end
   | SFail _ => true
   end.
-Definition next_bound (bound : Z) (e : sevent) : Z :=
-  match e with SSuggest tid _ => tid + 1 | _ => bound end.
+(* the trial id passed to suggest is consumed only when a new trial is started (not for a resume) *)
+Definition next_bound (st : shell) (bound : Z) (e : sevent) : Z :=
+  match e with
+  | SSuggest tid _ =>
+      match next_job (sh_mgr st) with
+      | MOk (_, _, sl) => match s_trial sl with Some _ => bound | None => tid + 1 end
+      | MError _ => bound
+      end
+  | _ => bound
+  end.
 Fixpoint slegal_hist (st : shell) (bound : Z) (h : list sevent) : Prop :=
   match h with
   | [] => True
   | e :: h' => slegal st bound e = true /\
-               match shell_step st e with MOk st' => slegal_hist st' (next_bound bound e) h' | MError _ => True end
+               match shell_step st e with MOk st' => slegal_hist st' (next_bound st bound e) h' | MError _ => True end
   end.
 End SyncShell.
+Arguments MOk {A} a.
+Arguments MError {A} e.
+
+(* what the scheduler answers (for the correspondence driver): suggest -> (resumed trial or None for a new
+   one, level the job runs to); on_trial_result -> decision *)
+Inductive sobs := OSuggest (resumed : option Z) (level : Z) | ONoSuggestion | ODecision (d : decision) | ONothing.
+Definition shell_observe (promote : list slot -> nat -> list Z) (bracket_rungs : list (list (nat * Z)))
+           (st : shell) (e : sevent) : sobs :=
+  match e with
+  | SSuggest _ ok =>
+      match next_job bracket_rungs (sh_mgr st) with
+      | MOk (_, _, sl) => match s_trial sl with
+                          | Some t' => OSuggest (Some t') (s_level sl)
+                          | None => if ok then OSuggest None (s_level sl) else ONoSuggestion
+                          end
+      | MError _ => ONothing
+      end
+  | SReport t r _ =>
+      match lookup t (sh_pending st) with
+      | None => ODecision STOP
+      | Some (_, sl) => ODecision (if s_level sl <=? r then PAUSE else CONTINUE)
+      end
+  | SFail _ => ONothing
+  end.
